@@ -75,7 +75,34 @@ def run(ctx):
     r.rule("C05.skipset", "skip predicates agree on what is skippable")
     r.rule("C05.scan", "look-around skips comments as well as whitespace")
     r.rule("C05.case", "text comparisons are case-insensitive")
+    r.rule("C05.position", "no tokenizer decision depends on the absolute position of an element within the line")
     r.explanation = "Syntax-tree lints restricted to the classifier modules; predicates are evaluated to the set of token classes they accept."
+    # ------------------------------------------------------------- position
+    # the tokenizer works on one physical line at a time; if a decision depended on *where in the line* an element stands
+    # (index parity, index compared with a constant) the tokens of a statement would depend on what else shares its line
+    n_loops = 0
+    for fi in sorted(p.functions.values(), key=lambda f: f.key):
+        if fi.module.name != "vsg.tokens":
+            continue
+        idx = set()
+        for n in walk_function(fi.node):
+            if isinstance(n, ast.For):
+                n_loops += 1
+                if isinstance(n.iter, ast.Call) and norm(n.iter.func) == "enumerate" and isinstance(n.target, ast.Tuple):
+                    idx.add(norm(n.target.elts[0]))
+                elif isinstance(n.iter, ast.Call) and norm(n.iter.func) == "range" and isinstance(n.target, ast.Name):
+                    idx.add(n.target.id)
+        for n in walk_function(fi.node):
+            bad = None
+            if isinstance(n, ast.BinOp) and isinstance(n.op, (ast.Mod, ast.FloorDiv, ast.BitAnd)) and any(isinstance(x, ast.Name) and x.id in idx for x in ast.walk(n)):
+                bad = n
+            elif isinstance(n, ast.Compare) and any(isinstance(c, ast.Constant) and isinstance(c.value, int) for c in [n.left] + list(n.comparators)) and any(isinstance(x, ast.Name) and x.id in idx for x in ast.walk(n)) and not any(isinstance(x, ast.Call) and norm(x.func) == "len" for x in ast.walk(n)):
+                bad = n
+            if bad is not None:
+                r.fail("C05.position", "%s:%s" % (fi.key, norm(bad)[:60]), "the tokenizer decides on `%s`, the absolute position of an element within the line: the same statement is tokenized differently depending on what precedes it on its line (joining or splitting lines changes the roles)" % norm(bad)[:60], fi.loc(bad))
+    if n_loops < 8:
+        raise AnalysisError("only %d loops found in vsg/tokens.py" % n_loops)
+    r.ok("C05.position", "vsg.tokens", "%d loops: indexes are used for neighbour access and slicing only" % n_loops)
     # ------------------------------------------------------------ neighbour
     n_sites = 0
     for fi in sorted(p.functions.values(), key=lambda f: f.key):
@@ -256,6 +283,8 @@ def _skip_classes(p, fi, test, plain_names):
 
 
 VARIANTS = [
+    Variant("C05", "character-literal candidates filtered by index parity within the line", "fire",
+            [("vsg/tokens.py", "        if lLiteral[1] == lNextLiteral[0] and lLiteral[0] == lPreviousLiteral[1]:", "        if iIndex % 2 == 1 and lLiteral[0] == lPreviousLiteral[1]:")], rule="C05.position"),
     Variant("C05", "name detection matches `(` only directly or after one whitespace token", "fire",
             [("vsg/vhdlFile/vhdlFile.py", "        if utils.are_next_consecutive_token_types_ignoring_whitespace([parser.open_parenthesis], iToken + 1, lTokens):\n            lTokens[iToken] = oToken.convert_to(todo.name)", "        if utils.are_next_consecutive_token_types([parser.open_parenthesis], iToken + 1, lTokens) or utils.are_next_consecutive_token_types([parser.whitespace, parser.open_parenthesis], iToken + 1, lTokens):\n            lTokens[iToken] = oToken.convert_to(todo.name)")], rule="C05.neighbour"),
     Variant("C05", "look-behind helper that stops at comments", "fire",
